@@ -1603,8 +1603,8 @@ namespace avel {
         vec2x64i arg_exponent = bit_shift_right<52>(vec2x64i{exponent_field});
 
         // Perform two multiplications such that they should never lead to lossy rounding
-        vec2x64i lower_bound0{vec2x64i{1} - arg_exponent};
-        vec2x64i upper_bound0{vec2x64i{1046} - arg_exponent};
+        vec2x64i lower_bound0{clamp(vec2x64i{1} - arg_exponent, vec2x64i{-2044}, vec2x64i{0})};
+        vec2x64i upper_bound0{vec2x64i{2046} - arg_exponent};
 
         vec2x64i extracted_magnitude = clamp(exp, lower_bound0, upper_bound0);
         exp -= extracted_magnitude;
@@ -1647,8 +1647,8 @@ namespace avel {
         vec2x64i arg_exponent = bit_shift_right<52>(vec2x64i{exponent_field});
 
         // Perform two multiplications such that they should never lead to lossy rounding
-        vec2x64i lower_bound0{vec2x64i{1} - arg_exponent};
-        vec2x64i upper_bound0{vec2x64i{1046} - arg_exponent};
+        vec2x64i lower_bound0{clamp(vec2x64i{1} - arg_exponent, vec2x64i{-2044}, vec2x64i{0})};
+        vec2x64i upper_bound0{vec2x64i{2046} - arg_exponent};
 
         vec2x64i extracted_magnitude = clamp(exp, lower_bound0, upper_bound0);
         exp -= extracted_magnitude;
